@@ -204,6 +204,11 @@ class FS:
         self.effect(eng, s, 'part_file.flush', node)
         return [(SNone(), s), self.may_fail(st, 'part_file.flush')]
 
+    def f_tell(self, eng, args, kwargs, st, node):
+        # the body may have moved the file position anywhere: tell() is an arbitrary non-negative integer
+        t = st.fresh.const('tell', z3.IntSort())
+        return [(SInt(t), st.assume(t >= 0))]
+
     def f_fileno(self, eng, args, kwargs, st, node):
         return [(SInt(st.fresh.const('fileno', z3.IntSort())), st)]
 
@@ -278,7 +283,7 @@ def externals(fs):
     return {'os.path.lexists': fs.lexists, 'os.stat': fs.stat, 'stat.S_IMODE': fs.s_imode, 'os.unlink': fs.unlink,
             'os.open': fs.open, 'set_cloexec': fs.set_cloexec, 'os.fdopen': fs.fdopen, 'os.chmod': fs.chmod,
             'os.close': fs.os_close, 'os.fsync': fs.fsync, 'os.rename': fs.rename, 'os.link': fs.link,
-            'method:PartFile.flush': fs.f_flush, 'method:PartFile.fileno': fs.f_fileno,
+            'method:PartFile.flush': fs.f_flush, 'method:PartFile.tell': fs.f_tell, 'method:PartFile.fileno': fs.f_fileno,
             'method:PartFile.close': fs.f_close}
 
 
